@@ -401,6 +401,9 @@ def run(ctx):
     # with the library, plus: every device write of a handle call outside the model's universe is root / bitmap / directory cache
     from . import fileiocorr
     fileiocorr.run(ctx, 30 if ctx.tier == "quick" else 1000)
+    # ... and of the directory frame theorems (C18_dir_create_frame / C18_dir_remove_frame over Model/Chain.v): raw hash tables and chains after every call
+    from . import chaincorr
+    chaincorr.run(ctx, 10 if ctx.tier == "quick" else 300)
     rule = ("random interleavings over up to 4 handles and 13 names with deletes (freed blocks get reused) on all six flavours; every device write of every operation is "
             "classified against the ownership map of the image as it was just before that write sequence started, replayed write by write (= every prefix); bitmap flag "
             "order checked inside each sequence; evaluations = device writes classified; distinct = distinct history")
